@@ -20,6 +20,9 @@ CONSTANTS MaxSize,    \* exhaustive: all programs of 1..MaxSize nodes
           SampleSize, \* sampled: programs of SampleSize nodes ...
           SampleN     \* ... this many of them (0 = none)
 
+CtxForms == C01CtxForms
+G == C01G
+
 NMax == IF SampleSize > MaxSize THEN SampleSize ELSE MaxSize
 ASSUME InitRegisters
 ASSUME SetContext(CtxForms)
